@@ -708,8 +708,93 @@ fn parallel_testdirs() -> (bool, bool) {
     (distinct, removed)
 }
 
+fn fake_engine_path() -> String {
+    std::env::var("FAKE_ENGINE").unwrap_or_else(|_| {
+        std::env::current_exe().unwrap().parent().unwrap().join("fake-engine").to_string_lossy().to_string()
+    })
+}
+
+/// family "driver": ExternalDriver against a scripted child (C20)
+fn driver_family(case: &Value) -> Value {
+    use sqllogictest_engines::external::{ExternalDriver, ExternalDriverError};
+    let n = TREE_COUNTER.fetch_add(1, std::sync::atomic::Ordering::SeqCst);
+    let base = std::env::var("SLT_HARNESS_TMP").unwrap_or_else(|_| "/verif/.cache/tmp".to_string());
+    let dir = format!("{}/d{}_{}", base, std::process::id(), n);
+    std::fs::create_dir_all(&dir).unwrap();
+    let script = format!("{dir}/script.json");
+    let logp = format!("{dir}/log.jsonl");
+    std::fs::write(&script, serde_json::to_string(&case["script"]).unwrap()).unwrap();
+    let timeout = std::time::Duration::from_millis(case.get("timeout_ms").and_then(|t| t.as_u64()).unwrap_or(3000));
+    let rt = tokio::runtime::Builder::new_current_thread().enable_all().build().unwrap();
+    let out = rt.block_on(async {
+        let mut cmd = tokio::process::Command::new(fake_engine_path());
+        cmd.args(["raw", &script, &logp]);
+        let mut calls = vec![];
+        let mut drv = match ExternalDriver::connect(cmd).await {
+            Ok(d) => d,
+            Err(e) => return json!({"connect": ["err", e.to_string()]}),
+        };
+        let mut hung = false;
+        for sql in case["requests"].as_array().unwrap() {
+            let sql = sql.as_str().unwrap();
+            match tokio::time::timeout(timeout, drv.run(sql)).await {
+                Err(_) => {
+                    calls.push(json!(["timeout"]));
+                    hung = true;
+                    break;
+                }
+                Ok(Ok(DBOutput::Rows { rows, .. })) => calls.push(json!(["rows", rows])),
+                Ok(Ok(DBOutput::StatementComplete(n))) => calls.push(json!(["complete", n])),
+                Ok(Ok(_)) => calls.push(json!(["other"])),
+                Ok(Err(e)) => {
+                    let class = match &e {
+                        ExternalDriverError::Sql(_) => "sql",
+                        ExternalDriverError::Json(_) => "json",
+                        ExternalDriverError::Io(_) => "io",
+                    };
+                    let text = match &e {
+                        ExternalDriverError::Sql(t) => t.clone(),
+                        _ => String::new(),
+                    };
+                    calls.push(json!(["err", class, text]));
+                }
+            }
+        }
+        let mut shutdown = json!(null);
+        if !hung && case.get("shutdown").and_then(|b| b.as_bool()).unwrap_or(true) {
+            shutdown = match tokio::time::timeout(timeout, drv.shutdown()).await {
+                Ok(()) => json!("ok"),
+                Err(_) => json!("timeout"),
+            };
+        }
+        drop(drv);
+        json!({"calls": calls, "shutdown": shutdown})
+    });
+    // give a killed child a moment, then read what it saw
+    std::thread::sleep(std::time::Duration::from_millis(30));
+    let mut received = vec![];
+    let mut saw_eof = false;
+    if let Ok(l) = std::fs::read_to_string(&logp) {
+        for line in l.lines() {
+            if let Ok(v) = serde_json::from_str::<Value>(line) {
+                match v["ev"].as_str() {
+                    Some("SQL") => received.push(json!([v["req"], v["raw"]])),
+                    Some("EOF") => saw_eof = true,
+                    _ => {}
+                }
+            }
+        }
+    }
+    let _ = std::fs::remove_dir_all(&dir);
+    let mut o = out.as_object().cloned().unwrap_or_default();
+    o.insert("received".into(), Value::Array(received));
+    o.insert("child_saw_eof".into(), json!(saw_eof));
+    Value::Object(o)
+}
+
 fn dispatch(family: &str, case: &Value) -> Value {
     match family {
+        "driver" => driver_family(case),
         "testdir" => testdir_family(case),
         "update" => {
             if case.get("coltype").and_then(|s| s.as_str()) == Some("two") {
